@@ -228,20 +228,34 @@ func ruleGridDimensions(c *eng.Ctx) {
 	// the comparison col > maxCol where col is ParseCellRef #0 and maxCol a loop-carried phi
 	found, ok := false, false
 	scan := func(in ssa.Instruction) {
-		b, isB := in.(*ssa.BinOp)
-		if !isB || b.Op != token.GTR {
+		var col, acc ssa.Value
+		if b, isB := in.(*ssa.BinOp); isB && b.Op == token.GTR {
+			col, acc = b.X, b.Y
+		} else if b, isB := in.(*ssa.BinOp); isB && b.Op == token.LSS {
+			col, acc = b.Y, b.X
+		} else if v, isV := in.(ssa.Value); isV {
+			// maxCol = max(maxCol, col)
+			kind, a, isMM := minMaxCall(v)
+			if !isMM || kind < 0 {
+				return
+			}
+			col, acc = a[0], a[1]
+			if _, isPhi := col.(*ssa.Phi); isPhi {
+				col, acc = acc, col
+			}
+		} else {
 			return
 		}
-		idx, isCol := extractIdx(b.X, "xlsx.ParseCellRef")
+		idx, isCol := extractIdx(col, "xlsx.ParseCellRef")
 		if !isCol || idx != 0 {
 			return
 		}
-		if ph, isPhi := b.Y.(*ssa.Phi); !isPhi || !isLoopCarried(ph) {
+		if ph, isPhi := acc.(*ssa.Phi); !isPhi || !isLoopCarried(ph) {
 			return
 		}
 		found = true
 		// the reference string comes from Cells[induction]
-		call := b.X.(*ssa.Extract).Tuple.(*ssa.Call)
+		call := col.(*ssa.Extract).Tuple.(*ssa.Call)
 		for v := range eng.Slice(call.Call.Args[0], nil) {
 			if ia, isIA := v.(*ssa.IndexAddr); isIA {
 				if fr, isF := eng.LoadOfField(ia.X); isF && fr.Field == "Cells" {
